@@ -34,6 +34,9 @@ CLAIMS = {
  "C09": dict(text="No-panic / no-wedge rules over every repository function reachable (VTA) from the serve loop, handlers, Unmarshal* methods and reply-parsing request helpers (about 290 functions): no bare type assertion, no explicit panic or Must* on non-constant input, Index* sentinels never reach a slice bound, constant slice indices and subtractive make sizes have a dominating length fact, the nil contract of Iter.Current is honoured at every call site, responses are closed at most once, plus the channel rules shared with C06. Level 'other': each rule instance is a necessary condition that holds for every byte sequence a peer can send; panics inside encoding/xml and computed-index bounds beyond the three index rules are not decided.",
              ref="DESIGN.md section 3, C09", tech="static analysis: VTA call-graph reachability, AST/type rules (assertions, panics, Must*), dominance-based index/sentinel/nil-contract rules, channel-class analysis",
              note="Trusted: VTA soundness for the entry set, encoding/xml and xmlstream not panicking. Open known findings shared with C06 (channel rules)."),
+ "C12": dict(text="Structural necessary conditions decided on every path: taint rule for the stream header (every non-constant string is escaped, typed harmless, or constant/RandomID at all call sites; content namespace constant before every Send); Expect's single success return dominated by the framing name test, nil FromStartElement error, version 1.0, supported namespace and stream id; an arm per header attribute in FromStartElement; restart address checks against snapshots taken before the header is read; bind request/response literals, guard/use agreement of the bind payload, UpdateAddr only for our id and a result, bound address from the callback or a per-request random resource. Level 'other': a peer's parser recovering the same values (round trip) is not decided.",
+             ref="DESIGN.md section 2, C12", tech="static analysis: taint (source/sanitiser/sink with call-site provenance), edge-dominance incl. role-restricted and from-point dominance, must-pass-through ordering, literal checks",
+             note="Trusted: xml.EscapeText escapes attribute-unsafe characters; jid.JID.String is the canonical form."),
 }
 
 def main():
